@@ -4,6 +4,7 @@
 #pragma once
 #include "common.h"
 #include "exa_dns.h"
+#include <array>
 #include <deque>
 #include <memory>
 #include <functional>
@@ -40,6 +41,9 @@ struct ReqSpec {
 
 struct Cfg {
   std::string name;
+  // events {kind,a,b} applied before the search starts: the search then explores from a non-initial state (they are
+  // part of every history and of every replay, but do not count against the depth and per-kind budgets)
+  std::vector<std::array<int, 3>> preamble;
   int         nservers = 1;
   int         tries = 2;
   int         timeout_ms = 2000;
